@@ -449,7 +449,7 @@ OVERLAY = {
 _run_counter = [0]
 
 
-def run_go(lines, timeout=1800, tag=None, want_stats=False):
+def run_go(lines, timeout=1800, tag=None, want_stats=False, env_extra=None):
     """build + run the driver on case lines.  Returns (output lines | None, panics {case idx: {step idx: (func, where)}},
     info dict with 'log', 'wall'=(t0,t1) ns around the run, 'stats')."""
     wd = vlib.workdir()
@@ -463,7 +463,7 @@ def run_go(lines, timeout=1800, tag=None, want_stats=False):
             os.remove(p)
     ov = {os.path.join(vlib.REPO, k): os.path.join(vlib.HGO, v) for k, v in OVERLAY.items()}
     t0 = time.time_ns()
-    rc, out = vlib.go_test(".", ov, "^TestVerifIrc$", {"VERIF_IN": inp, "VERIF_OUT": outp, "VERIF_STATS": outp + ".stats"},
+    rc, out = vlib.go_test(".", ov, "^TestVerifIrc$", dict({"VERIF_IN": inp, "VERIF_OUT": outp, "VERIF_STATS": outp + ".stats"}, **(env_extra or {})),
                            timeout=timeout)
     t1 = time.time_ns()
     info = {"log": out, "wall": (t0, t1), "rc": rc, "stats": None}
